@@ -1227,6 +1227,8 @@ type spemitStream struct {
 	seed int64
 	off  int64
 	log  []byte // every byte handed out, in order
+	// chunk > 0: at most that many bytes per Read (short reads, as io.Reader permits)
+	chunk int
 }
 
 func spemitBlock(seed, idx int64) [32]byte {
@@ -1246,6 +1248,9 @@ func spemitBlock(seed, idx int64) [32]byte {
 func (s *spemitStream) Read(p []byte) (int, error) {
 	s.mu.Lock()
 	defer s.mu.Unlock()
+	if s.chunk > 0 && len(p) > s.chunk {
+		p = p[:s.chunk] // a valid io.Reader may return fewer bytes than asked for
+	}
 	for i := range p {
 		blk := spemitBlock(s.seed, s.off/32)
 		p[i] = blk[s.off%32]
